@@ -5,7 +5,7 @@
    Every statement is for all programs, contexts, environments, values and fuel; OutOfFuel is not excluded
    anywhere: the equalities hold outcome by outcome. *)
 From Twig Require Import Base.Bytes Base.Utf8 Model.Ast Model.Value Model.ValueOps Model.EvalBuiltins Model.Ctx
-                         Model.TemplateSet Model.Eval Spec.ControlSpec Proofs.EvalProofs Proofs.EvalShapeProofs Gen.EvalShape.
+                         Model.TemplateSet Model.Eval Spec.ControlSpec Proofs.EvalProofs Proofs.LoopThreading Proofs.EvalShapeProofs Gen.EvalShape.
 From Twig Require Import Base.Kernel Gen.KernelsLoop Gen.KernelsRange Proofs.KernelLoop Proofs.KernelRangeModel.
 
 (* ---------------------------------------------------------------- refinement *)
@@ -203,6 +203,46 @@ Theorem C09_set_visible_after : forall fu env c x e rest v t,
   (forall y, x <> y -> rc_get_var (rc_set_var c x v) y = rc_get_var c y).
 Proof. exact C09_set_visible_after_proof. Qed.
 
+(* a set is visible to later iterations: the loop of the specification unfolded from the left. The first iteration
+   runs with its own bindings in the loop's context; what follows starts from the context that iteration ended with
+   (c9_prepend puts its output and trace in front), and the bindings of the next iteration leave every name that is not
+   the loop's own as that iteration left it. A failed iteration ends the loop with its outcome. *)
+Theorem C09_loop_threads_context : forall body k v n i it rest c,
+  c9_loop_from body k v n i (it :: rest) c =
+  match body (c9_iter_ctx c k v n i it) with
+  | (Ok o1, c1, t1) => c9_prepend o1 t1 (c9_loop_from body k v n (i + 1) rest c1)
+  | other => other
+  end.
+Proof. exact C09_loop_threads_context_proof. Qed.
+
+Theorem C09_loop_unfold : forall body k v it rest c,
+  c9_loop body k v (it :: rest) c =
+  match body (c9_iter_ctx c k v (Z.of_nat (S (length rest))) 0 it) with
+  | (Ok o1, c1, t1) => c9_prepend o1 t1 (c9_loop_from body k v (Z.of_nat (S (length rest))) 1 rest c1)
+  | other => other
+  end.
+Proof. exact C09_loop_unfold_proof. Qed.
+
+Theorem C09_set_visible_next_iteration : forall body k v n i it it' rest c o1 c1 t1 x,
+  body (c9_iter_ctx c k v n i it) = (Ok o1, c1, t1) ->
+  x <> b#"loop" -> x <> v -> k <> Some x ->
+  c9_loop_from body k v n i (it :: it' :: rest) c =
+    c9_prepend o1 t1 (c9_loop_from body k v n (i + 1) (it' :: rest) c1) /\
+  rc_get_var (c9_iter_ctx c1 k v n (i + 1) it') x = rc_get_var c1 x.
+Proof. exact C09_set_visible_next_iteration_proof. Qed.
+
+(* non-vacuity, through the whole evaluator: a separator flag, false at the top, read by a bare condition at the start of
+   the loop body and set to true at its end, separates the second and third element (the template of the seeded change
+   this statement answers) *)
+Example C09_example_flag_in_loop :
+  render_template 40
+    (MkEnv [(b#"t", [NSet b#"sep" (ELit (LBool false));
+                     NFor None b#"x" (EArr [ELit (LStr b#"a"); ELit (LStr b#"b"); ELit (LStr b#"c")])
+                       [NIf [(EVar b#"sep", [NText b#", "])] None; NPrint (EVar b#"x"); NSet b#"sep" (ELit (LBool true))] None])]
+           [] [] [] None) b#"t" []
+  = (Ok b#"a, b, c", [TrLoad b#"t"]).
+Proof. vm_compute. reflexivity. Qed.
+
 (* ---------------------------------------------------------------- tie to the code *)
 (* the shapes the model mirrors are in node.go / render.go now: toBool's nil guard and type switch, the saved and
    deferred loop variable, []rune for strings, sortedMapKeys for maps (regenerated on every run) *)
@@ -308,6 +348,9 @@ Print Assumptions C09_nothing_to_iterate.
 Print Assumptions C09_range_elements.
 Print Assumptions C09_range_membership.
 Print Assumptions C09_set_visible_after.
+Print Assumptions C09_loop_threads_context.
+Print Assumptions C09_loop_unfold.
+Print Assumptions C09_set_visible_next_iteration.
 Print Assumptions C09_code_shape.
 Print Assumptions C09_loop_counters_code.
 Print Assumptions C09_loop_counters_on_machine.
